@@ -29,6 +29,7 @@ def instances(tier):
         I("size_gz_full", trig="size", count=2, limit=2, sizes=(1, 3), maxrec=4, obst=1, gz=True, pre="PreNone"),
         I("pre_gz_full_t", trig="pre", append=False, count=1, sizes=(1, 2), maxrec=3, obst=1, gz=True, pre="PreNone"),
         I("post_gz_full", trig="post", count=2, sizes=(1, 2), maxrec=3, obst=1, restart=1, gz=True, pre="PreNone"),
+        I("size_prearch_fault", trig="size", count=3, limit=1, sizes=(1, 2), maxrec=3, prearch=True, faults=1, pre="PreNone"),
         I("size_w01_fault", trig="size", count=1, limit=1, sizes=(1, 2), maxrec=4, faults=1, restart=1, pre="PreNone"),
         I("size_fault_restart", trig="size", count=2, limit=2, sizes=(1, 3), maxrec=4, faults=1, restart=1, pre="PreNone"),
         I("big_size", trig="size", base=1, count=2, limit=2, sizes=(1, 3), maxrec=6, faults=2, crash=1, restart=1,
